@@ -190,6 +190,21 @@ Theorem c05_member_error_propagates : forall e k name s d fs entries fd n i' ce,
   = Err ce.
 Proof. exact dec_indexed_member_error. Qed.
 
+Definition c05_ex_client_pin : val :=
+  VRec [("pin_protocol", VZ 1); ("sub_command", VEnum "GetPinToken");
+        ("key_agreement", VSome (VRec [("x", VBytes (repeat 7 32)); ("y", VBytes (repeat 9 32))]));
+        ("pin_auth", VNone); ("new_pin_enc", VNone); ("pin_hash_enc", VSome (VBytes (repeat 1 16)));
+        ("_placeholder07", VNone); ("_placeholder08", VNone);
+        ("permissions", VSome (VZ 5)); ("rp_id", VSome (VStr (bytes_of_string "example.org")))].
+Definition c05_ex_enc : bytes :=
+  match encode (spec_env []) (TNamed "ctap2::client_pin::Request") c05_ex_client_pin with Some b => b | None => [] end.
+(* non-vacuity of the truncation theorem: a well-typed ClientPin request (117 bytes) cut after 40 bytes *)
+Example c05_ex_truncation :
+  wt (spec_env []) type_fuel (TNamed "ctap2::client_pin::Request") c05_ex_client_pin = true /\
+  blen c05_ex_enc = 117 /\
+  request_deserialize spec_tables (spec_env []) (6 :: firstn 40 c05_ex_enc) = RErr 0x12.
+Proof. vm_compute. repeat split; reflexivity. Qed.
+
 Theorem c05_empty_message : forall e, request_deserialize spec_tables e [] = RErr 0x12.
 Proof. intros e. cbn [request_deserialize]. rewrite spec_status_of_cerr. reflexivity. Qed.
 
